@@ -295,6 +295,7 @@ def check(chk):
     _tick_arithmetic(chk, tm)
     _timed_pause(chk, repo)
     _control_event_kwargs(chk, repo)
+    _tick_interval_changes_always_apply(chk, repo)
     _timer_reloaded_from_config(chk, repo)
     # whoever (re)creates the periodic tick leaves it armed: no removal of the system timer after the creation on any path
     for name in ("start", "jump", "set_tick_interval", "change_tick_interval", "restart"):
@@ -579,6 +580,21 @@ def _control_event_kwargs(chk, repo):
     chk.ob("CTRL-13", "branches of the control event table examined (%d)" % k, k >= 2, f.where(), nontrivial=False)
 
 
+def _tick_interval_changes_always_apply(chk, repo):
+    """TICK-13: "exactly once per *current* interval": a change of the tick interval takes effect whenever it arrives - also while the timer is
+    paused or stopped (it then ticks at the new interval after the resume).  Every returning path of set_tick_interval / change_tick_interval
+    stores the new tick_secs."""
+    for name in ("set_tick_interval", "change_tick_interval"):
+        f = repo.func(TM, "Timer." + name)
+        chk.analysed(f)
+        cfg = f.cfg()
+        st = [n.id for n in cfg.nodes if n.kind == "stmt" and isinstance(n.ast, (ast.Assign, ast.AugAssign)) and
+              src(n.ast.targets[0] if isinstance(n.ast, ast.Assign) else n.ast.target) == "self.tick_secs"]
+        w = cfg.must_pass(cfg.entry.id, st) if st else [cfg.entry.id]
+        chk.ob("TICK-13", "every returning path of Timer.%s stores the new tick interval (running or not)" % name, w is None, f.where(), construct=f.ident,
+               text="tick interval change applied in " + name, path=cfg.fmt_path(w, f) if w and len(w) > 1 else None, nontrivial=True)
+
+
 def _timed_pause(chk, repo):
     """PAUSE-13: a timed pause lasts as long as asked: the pause length goes through _get_timer_value(in_ms=True), which scales to ms
     *inside* its int() (0.5 s is 500 ms, not 0 = for ever), the resume delay is armed for exactly that length and only for a positive one,
@@ -675,6 +691,7 @@ def _tick_arithmetic(chk, tm):
 def battery():
     from sa.battery import M
     return [
+        M("interval change dropped while the timer is not running", TM, "        self.tick_secs = abs(self._get_timer_tick_secs(timer_value, **kwargs))", "        if not self.running:\n            return\n        self.tick_secs = abs(self._get_timer_tick_secs(timer_value, **kwargs))", "TICK-13"),
         M("pause without a value inherits the previous entry's value", TM, "            if entry['action'] in ('add', 'subtract', 'jump', 'pause', 'set_tick_interval'):\n                handler = getattr(self, entry['action'])\n                kwargs = {'timer_value': entry['value']}\n", "            if entry['action'] in ('add', 'subtract', 'jump', 'set_tick_interval'):\n                handler = getattr(self, entry['action'])\n                kwargs = {'timer_value': entry['value']}\n\n            elif entry['action'] == 'pause':\n                handler = self.pause\n                if entry['value'] is not None:\n                    kwargs = {'timer_value': entry['value']}\n", "CTRL-13"),
         M("twin: pause gets a branch of its own", TM, "            if entry['action'] in ('add', 'subtract', 'jump', 'pause', 'set_tick_interval'):\n                handler = getattr(self, entry['action'])\n                kwargs = {'timer_value': entry['value']}\n", "            if entry['action'] in ('add', 'subtract', 'jump', 'set_tick_interval'):\n                handler = getattr(self, entry['action'])\n                kwargs = {'timer_value': entry['value']}\n\n            elif entry['action'] == 'pause':\n                handler = self.pause\n                kwargs = {'timer_value': entry['value']}\n", None),
         M("zero-length delay runs at once", DL, "        self.delays[name] = (self.machine.clock.schedule_once(\n            partial(self._process_delay_callback, name, callback, **kwargs),", "        if ms <= 0:\n            self._process_delay_callback(name, callback, **kwargs)\n            return name\n        self.delays[name] = (self.machine.clock.schedule_once(\n            partial(self._process_delay_callback, name, callback, **kwargs),", "FLOW-5"),
